@@ -23,13 +23,17 @@ structure Cfg where
   /-- empty transaction bytes are reported invalid (repaired); as found `tx.Data()` on a nil
       transaction panics the executing routine -/
   nilTxGuard : Bool := true
+  /-- the governance precompile fails a call with malformed input (repaired); as found its slicing
+      runs out of range and panics the node executing the block -/
+  adminInputGuard : Bool := true
   deriving Repr, DecidableEq
 
 def repaired : Cfg := {}
-def asFound : Cfg := ⟨false, false, false⟩
+def asFound : Cfg := ⟨false, false, false, false⟩
 
 inductive Kind where
-  | call (to : Nat)                       -- message call / value transfer to account `to`
+  | call (to : Nat) (adminBad : Bool := false)  -- message call / value transfer to account `to`;
+                                          -- `adminBad`: the governance precompile with malformed input
   | create                                -- contract creation
   | kv (key value : Bytes) (rlpOk : Bool) -- key-value transaction (payload decodes or not)
   deriving Repr, DecidableEq
@@ -81,24 +85,24 @@ def applyTx (cfg : Cfg) (as : Accounts) : Tx → Accounts × Outcome
     | .kv key val rlpOk =>
       if !rlpOk then (as, .invalid)
       else if cfg.kvNonceCheck ∧ nonce ≠ a.nonce then (as, .invalid)
-      else (setAcc as { a with nonce := a.nonce + 1 }, .kvApplied (Rlp.encode (.list [.str key, .str val])))
-    | .call to =>
+      else (setAcc as ⟨sender, a.nonce + 1, a.balance⟩, .kvApplied (Rlp.encode (.list [.str key, .str val])))
+    | .call to adminBad =>
       if nonce ≠ a.nonce then (as, .invalid)
       else if a.balance < gas * price then (as, .invalid)
       else if gas < intrinsicGas zeros nonzeros then (as, .invalid)
       else if a.balance - gas * price < value then (as, .invalid)   -- `CanTransfer` after buying gas
+      else if adminBad ∧ !cfg.adminInputGuard then (as, .panic)
       else
         -- gas price is 0 in every schedule of the harness: no refund arithmetic
-        let a' : Account := { a with nonce := a.nonce + 1, balance := a.balance - value }
-        let as1 := setAcc as a'
+        let as1 := setAcc as ⟨sender, a.nonce + 1, a.balance - value⟩
         let b := getAcc as1 to
-        (setAcc as1 { b with balance := b.balance + value }, .applied)
+        (setAcc as1 ⟨to, b.nonce, b.balance + value⟩, .applied)
     | .create =>
       if nonce ≠ a.nonce then (as, .invalid)
       else if a.balance < gas * price then (as, .invalid)
       else if gas < intrinsicGas zeros nonzeros then (as, .invalid)
       else if a.balance - gas * price < value then (as, .invalid)
-      else (setAcc as { a with nonce := a.nonce + 1, balance := a.balance - value }, .applied)
+      else (setAcc as ⟨sender, a.nonce + 1, a.balance - value⟩, .applied)
 
 /-- the replica: what is on disk and what lives in the process -/
 structure App where
@@ -110,6 +114,7 @@ structure App where
 
 structure BlockOut where
   verdicts : List Outcome
+  records : List Bytes      -- what the receipts hash is computed over
   rhash : Option Bytes
   deriving Repr, DecidableEq
 
@@ -137,7 +142,7 @@ def block (cfg : Cfg) (app : App) (txs : List Tx) (oracle : List Bytes) : App ×
   let (as, rs, ks, vs) := execTxs cfg app.accounts txs oracle app.receipts app.kvs []
   let rhash := Merkle.root N (rs ++ ks)
   ({ accounts := as, height := app.height + 1, receipts := [],
-     kvs := if cfg.resetKvs then [] else ks }, ⟨vs, rhash⟩)
+     kvs := if cfg.resetKvs then [] else ks }, ⟨vs, rs ++ ks, rhash⟩)
 
 end
 
